@@ -165,7 +165,7 @@ func (b *Buffer) GetMode() (m OutputMode)
   ensures m == b.mode
 
 func (b *Buffer) Reset()
-  ensures len(b.buf) == 0 && b.validUntil == 0 && b.mode == UnsafeEscaped && !b.markerOpen
+  ensures [C01,C13] len(b.buf) == 0 && b.validUntil == 0 && b.mode == UnsafeEscaped && !b.markerOpen
 
 func (b *Buffer) Len() (n int)
   modifies mem(b.buf)
@@ -180,14 +180,14 @@ func (b *Buffer) Cap() (n int)
   ensures n == cap(b.buf)
 
 func (b *Buffer) TakeRedactableBytes() (r m.RedactableBytes)
-  ensures b.buf == nil && b.validUntil == 0 && b.mode == UnsafeEscaped && !b.markerOpen
+  ensures [C01,C12,C13] b.buf == nil && b.validUntil == 0 && b.mode == UnsafeEscaped && !b.markerOpen
   ensures ref(r) == 0 || ref(r) == old(ref(b.buf)) || fresh(r)
   ensures [C01] WF(r, len(r), false)
   ensures [C01] old(b.mode) != SafeRaw ==> clean(r, len(r))
   ensures [C03] LS(r, len(r))
 
 func (b *Buffer) TakeRedactableString() (r m.RedactableString)
-  ensures b.buf == nil && b.validUntil == 0 && b.mode == UnsafeEscaped && !b.markerOpen
+  ensures [C01,C12,C13] b.buf == nil && b.validUntil == 0 && b.mode == UnsafeEscaped && !b.markerOpen
   ensures [C01] WF(r, len(r), false)
   ensures [C01] old(b.mode) != SafeRaw ==> clean(r, len(r))
   ensures [C03] LS(r, len(r))
